@@ -159,6 +159,24 @@ func c11Programs(depth int) []*Spec {
 			}
 		}
 	}
+	// a frame drawn after the bar reached its final state fails (the filler returns an error): the container shuts
+	// down, the state the bar had reported must stay
+	for _, rf := range []string{"manual", "auto"} {
+		for ei, end := range [][]Op{{{K: "incr", B: 0, N: 2}}, {{K: "abort", B: 0}}} {
+			sp := &Spec{Name: fmt.Sprintf("c11-render-error-after-final-state-%d", ei), Refresh: rf, Q: -1}
+			sp.Bars = []BarSpec{{Total: 2, FillErrWhenDone: true}, {Total: 9}}
+			sp.Main = []Op{{K: "add", B: 0}, {K: "add", B: 1}}
+			ops := []Op{{K: "refresh"}}
+			ops = append(ops, end...)
+			ops = append(ops, Op{K: "get", B: 0}, Op{K: "refresh"}, Op{K: "get", B: 0}, Op{K: "barwait", B: 0}, Op{K: "get", B: 0})
+			if rf == "auto" {
+				ops = append(append([]Op{}, end...), Op{K: "get", B: 0}, Op{K: "barwait", B: 0}, Op{K: "get", B: 0})
+			}
+			sp.Clients = [][]Op{ops, {{K: "get", B: 0}, {K: "get", B: 0}}}
+			sp.Late = []Op{{K: "get", B: 0}, {K: "get", B: 0}}
+			out = append(out, sp)
+		}
+	}
 	return out
 }
 
